@@ -224,7 +224,10 @@ class LazyCall:
 
     def __eq__(self, other):
         return (
-            self.callee == other.callee and self.args == other.args and self.kwargs == other.kwargs
+            isinstance(other, type(self))
+            and self.callee == other.callee
+            and self.args == other.args
+            and self.kwargs == other.kwargs
         )
 
     def accept(self, visitor):
